@@ -1,0 +1,100 @@
+//go:build verif
+
+// Package verifhook provides observation and scheduling hooks that are compiled in only
+// with the "verif" build tag. Without the tag every function is an empty, inlinable no-op.
+package verifhook
+
+import (
+	"fmt"
+	"sort"
+	"sync"
+	"sync/atomic"
+)
+
+// Enabled reports whether the hooks are compiled in.
+const Enabled = true
+
+type yieldFn func(point string)
+type eventFn func(kind string, args []any)
+type planFn func(key string, candidates []string) string
+
+var (
+	yielder atomic.Pointer[yieldFn]
+	sink    atomic.Pointer[eventFn]
+	forcer  atomic.Pointer[planFn]
+	plans   sync.Map // selector -> key string
+)
+
+// SetYield installs (or removes, with nil) the function called at scheduling points.
+func SetYield(f func(point string)) {
+	if f == nil {
+		yielder.Store(nil)
+		return
+	}
+	g := yieldFn(f)
+	yielder.Store(&g)
+}
+
+// SetSink installs (or removes, with nil) the event consumer.
+func SetSink(f func(kind string, args []any)) {
+	if f == nil {
+		sink.Store(nil)
+		return
+	}
+	g := eventFn(f)
+	sink.Store(&g)
+}
+
+// SetPlanForcer installs (or removes, with nil) the strategy override. The function receives the
+// plan key and the sorted candidate names and returns the name to use, or "" for no override.
+func SetPlanForcer(f func(key string, candidates []string) string) {
+	if f == nil {
+		forcer.Store(nil)
+		return
+	}
+	g := planFn(f)
+	forcer.Store(&g)
+}
+
+// Yield marks a scheduling point.
+func Yield(point string) {
+	if f := yielder.Load(); f != nil {
+		(*f)(point)
+	}
+}
+
+// Event reports an observation.
+func Event(kind string, args ...any) {
+	if f := sink.Load(); f != nil {
+		(*f)(kind, args)
+	}
+}
+
+// RegisterPlan associates a plan selector with its key.
+func RegisterPlan(selector any, key any) {
+	plans.Store(selector, fmt.Sprint(key))
+}
+
+// ForcedPlan lets a harness override the choice among candidates.
+func ForcedPlan[V any](selector any, candidates map[string]V) (V, bool) {
+	var zero V
+	f := forcer.Load()
+	if f == nil {
+		return zero, false
+	}
+	names := make([]string, 0, len(candidates))
+	for k := range candidates {
+		names = append(names, k)
+	}
+	sort.Strings(names)
+	key := ""
+	if k, ok := plans.Load(selector); ok {
+		key = k.(string)
+	}
+	name := (*f)(key, names)
+	v, ok := candidates[name]
+	if ok {
+		Event("plan.forced", key, name, names)
+	}
+	return v, ok
+}
